@@ -111,6 +111,106 @@ def _worker(job):
             pass
     for op in ("x,y,z", "-x,1/2+y,z+.5"):
         getSymOp(op)
+    # fill the two lazily built lookup tables and let a failing CIF / auto parse happen once before the first snapshot
+    import diffpy.structure.spacegroups as _sgs
+    _sgs.GetSpaceGroup(1)
+    _sgs.FindSpaceGroup(_sgs.SpaceGroupList[0].symop_list)
+    for _fmt in ("cif", "auto", "xcfg", "pdb", "discus", "pdffit", "xyz", "rawxyz"):
+        try:
+            Structure().readStr("this is not a structure\n", _fmt)
+        except Exception:
+            pass
+    import locale
+    import warnings
+    import gc
+    import numpy
+
+    _BASIC = (bool, int, float, str, bytes, complex, type(None))
+
+    def dg(v, depth):
+        """structural digest: containers by content, library objects by identity + scalar attributes, the rest by identity"""
+        t = type(v)
+        if t in _BASIC:
+            return repr(v)
+        if t in (list, tuple):
+            return (t.__name__, len(v), id(v)) if depth <= 0 else (t.__name__, tuple(dg(x, depth - 1) for x in v))
+        if t in (set, frozenset):
+            return (t.__name__, len(v)) if depth <= 0 else (t.__name__, tuple(sorted(repr(dg(x, depth - 1)) for x in v)))
+        if isinstance(v, dict):
+            if depth <= 0:
+                return ("dict", len(v), id(v))
+            return ("dict", tuple(sorted(((repr(dg(k, 1)), dg(x, depth - 1)) for k, x in list(v.items())), key=lambda kv: kv[0])))
+        if isinstance(v, numpy.ndarray):
+            return ("ndarray", v.shape, hash(v.tobytes()))
+        if getattr(t, "__module__", "").startswith("diffpy.structure") and hasattr(v, "__dict__") and depth > 0:
+            return (t.__name__, id(v), tuple(sorted((k, dg(x, 0) if type(x) not in _BASIC else repr(x)) for k, x in vars(v).items())))
+        return (t.__name__, id(v))
+
+    def snapshot():
+        snap = {}
+        for name, mod in list(sys.modules.items()):
+            if mod is None or not name.startswith("diffpy.structure"):
+                continue
+            for k, v in list(vars(mod).items()):
+                if k.startswith("__") and k.endswith("__"):
+                    continue
+                if isinstance(v, type(sys)):
+                    continue
+                snap["%s.%s" % (name, k)] = dg(v, 3)
+                if isinstance(v, type) and getattr(v, "__module__", None) == name:
+                    for ck_, cv in list(vars(v).items()):
+                        if ck_.startswith("__") and ck_.endswith("__"):
+                            continue
+                        if type(cv) in _BASIC or isinstance(cv, (dict, list, set, tuple, frozenset)):
+                            snap["%s.%s.%s" % (name, k, ck_)] = dg(cv, 2)
+                        else:
+                            snap["%s.%s.%s" % (name, k, ck_)] = (type(cv).__name__, id(cv))
+        try:
+            import CifFile.yapps3_compiled_rt as _y
+            snap["CifFile.yapps3_compiled_rt.print_error"] = (getattr(_y.print_error, "__qualname__", "?"), id(_y.print_error))
+            import CifFile.StarFile as _sf
+            for k in ("print_error",):
+                if hasattr(_sf, k):
+                    snap["CifFile.StarFile." + k] = id(getattr(_sf, k))
+        except Exception:
+            pass
+        snap["sys.stdout"] = id(sys.stdout)
+        snap["sys.stderr"] = id(sys.stderr)
+        snap["sys.stdin"] = id(sys.stdin)
+        snap["sys.displayhook"] = id(sys.displayhook)
+        snap["sys.excepthook"] = id(sys.excepthook)
+        snap["os.getcwd"] = os.getcwd()
+        snap["os.environ"] = tuple(sorted(os.environ.items()))
+        snap["os.umask"] = None
+        snap["numpy.geterr"] = tuple(sorted(numpy.geterr().items()))
+        snap["numpy.printoptions"] = repr(sorted(numpy.get_printoptions().items(), key=lambda kv: kv[0]))
+        snap["warnings.filters"] = len(warnings.filters)
+        snap["locale.getlocale"] = repr(locale.getlocale())
+        snap["sys.path"] = tuple(sys.path)
+        snap["sys.meta_path"] = len(sys.meta_path)
+        snap["sys.path_hooks"] = len(sys.path_hooks)
+        snap["sys.recursionlimit"] = sys.getrecursionlimit()
+        snap["gc.isenabled"] = gc.isenabled()
+        snap["sys.gettrace"] = id(sys.gettrace())
+        snap["sys.getprofile"] = id(sys.getprofile())
+        return snap
+
+    def snap_diff(a, b):
+        out = []
+        for k in a:
+            if k in b and a[k] != b[k]:
+                out.append(k)
+        # attributes that disappeared / appeared in modules present before
+        mods_a = {k.rsplit(".", 1)[0] for k in a}
+        for k in b:
+            if k not in a and k.rsplit(".", 1)[0] in mods_a:
+                out.append(k + " (new)")
+        for k in a:
+            if k not in b:
+                out.append(k + " (deleted)")
+        return sorted(out)
+
+    state["snap"] = snapshot()
     import io as _io  # noqa
     stdlib = set(getattr(sys, "stdlib_module_names", ()))
     mods = set(sys.modules)
@@ -150,6 +250,12 @@ def _worker(job):
         if newfiles:
             viol.append(["new-files", newfiles[:6]])
             files |= set(newfiles)
+        # process state before / after (the previous `after` is this parse's `before`)
+        after = snapshot()
+        changed = snap_diff(state["snap"], after)
+        state["snap"] = after
+        if changed:
+            viol.append(["global-state", changed[:8]])
         return out, viol
 
     res_ops = []
@@ -384,13 +490,32 @@ def adversarial_docs(ck, base_docs):
             else:
                 t2 = t
             docs.append({"fmt": "xcfg", "text": t2, "pos": ["auxiliary-name"], "payload": name, "mode": "aux", "write": "xcfg"})
+    # XCFG species table: unknown symbols, extreme / contradictory masses (the mass and symbol lines precede each block)
+    special = []
+    if xc:
+        import re
+        mrx = re.compile(r"^(\d+\.\d+)\n([A-Z][a-z]?)$", re.M)
+        mm = mrx.search(xc[0])
+        if mm:
+            for mass, sym in [("1e300", "Qq"), ("-5", "Qq"), ("nan", "Zz"), ("inf", "Xx9"), ("1e300", mm.group(2)), ("0.0001", "C"), ("12.0", "c"),
+                              ("1e300", "__class__"), ("7", ""), ("1e300", "Uuo"), ("99999.9999", "D"), ("1", "Qq Rr")]:
+                t2 = xc[0][:mm.start()] + mass + "\n" + sym + xc[0][mm.end():]
+                special.append({"fmt": "xcfg", "text": t2, "pos": ["species"], "payload": "%s %s" % (mass, sym), "mode": "species", "write": "xcfg"})
+                special.append({"fmt": "auto", "text": t2, "pos": ["species"], "payload": "%s %s" % (mass, sym), "mode": "species", "write": "xcfg"})
+    # documents that make the parser RAISE (a hook or redirection must be restored on the error path too)
+    for fmt in ("cif", "auto", "xcfg", "pdb", "discus", "pdffit", "xyz", "rawxyz"):
+        for junk in ("garbage text 1 2 3\n", "data_x\n_cell_length_a 'unterminated\n", "", "loop_\n_a\n_b\n1\n", "\x00\x01\x02\n"):
+            special.append({"fmt": fmt, "text": junk, "pos": ["junk"], "payload": junk[:20], "mode": "raise"})
+    # after each failing CIF parse a good CIF must still parse (and nothing may have changed)
+    special.append({"fmt": "cif", "text": CIF_BASE, "pos": ["valid-after-errors"], "payload": "", "mode": "valid"})
+    docs += special
     if quick:
         # all formats in full, but cap the total
         rng.shuffle(docs)
         keep, per = [], {}
         for d in docs:
             k = d["fmt"]
-            if per.get(k, 0) < 90 or d["pos"] in (["symop"], ["auxiliary-name"]):
+            if per.get(k, 0) < 90 or d["pos"] in (["symop"], ["auxiliary-name"], ["species"], ["junk"], ["valid-after-errors"]):
                 keep.append(d)
                 per[k] = per.get(k, 0) + 1
         docs = keep
@@ -435,6 +560,15 @@ def run(ck):
         shutil.rmtree(wd, ignore_errors=True)
 
 
+def viol_key(where, viol):
+    """`global-state:<what>` for a changed piece of process state, `audit:<format>:<event>` for an audit event"""
+    real = [v for v in viol if v[0] != "global-state"]
+    if real:
+        return "audit:%s:%s" % (where, real[0][0])
+    what = viol[0][1][0].replace(" (new)", "").replace(" (deleted)", "")
+    return "global-state:%s" % what
+
+
 def circ(a, b):
     d = abs((a - b) % 1.0)
     return min(d, 1.0 - d)
@@ -468,7 +602,7 @@ def _run(ck, rep, ok, info, wd):
         # dynamic oracle
         if viol:
             nviol += 1
-            fail("audit:getSymOp:%s" % viol[0][0], "getSymOp(%r) caused %r" % (s[:120], viol[:3]),
+            fail(viol_key("getSymOp", viol), "getSymOp(%r) caused %r" % (s[:120], viol[:3]),
                     {"kind": "audit", "call": "getSymOp", "input": s, "events": viol, "outcome": real})
             continue
         # independent expectation by construction
@@ -508,7 +642,7 @@ def _run(ck, rep, ok, info, wd):
             other_exc[real[1]] = other_exc.get(real[1], 0) + 1
         if viol:
             nviol += 1
-            fail("audit:%s:%s" % (d["fmt"], viol[0][0]), "parsing a %s document with %r at %r caused %r" % (d["fmt"], d["payload"][:60], d["pos"], viol[:3]),
+            fail(viol_key(d["fmt"], viol), "parsing a %s document with %r at %r caused %r" % (d["fmt"], d["payload"][:60], d["pos"], viol[:3]),
                     {"kind": "audit", "format": d["fmt"], "text": d["text"], "write": d.get("write"), "events": viol, "outcome": real,
                      "payload": d["payload"], "position": d["pos"]})
     ck.notes.append("compile/exec audit events not sharing any identifier with the input (library-internal templates, e.g. namedtuple): %d" % res["benign_compile_exec"])
